@@ -776,8 +776,11 @@ class H2Connection:
 
             _check_priority(stream_id, priority_weight, priority_depends_on)
 
-        # Check we can open the stream.
-        if stream_id not in self.streams:
+        # Check we can open the stream. Only clients open streams by sending
+        # HEADERS: a server can only send them on a stream that exists.
+        if not self.config.client_side:
+            self._get_stream_by_id(stream_id)
+        elif stream_id not in self.streams:
             max_open_streams = self.remote_settings.max_concurrent_streams
             if (self.open_outbound_streams + 1) > max_open_streams:
                 raise TooManyStreamsError(
